@@ -162,7 +162,7 @@ class Run(object):
                 r = r.copy(); r[0] = -np.inf
             elif kind == "huge":
                 r = r.copy(); r[0] = 1e200
-            elif kind == "raise":
+            elif kind in problems.RAISE_KINDS:
                 raised = True
         with np.errstate(all="ignore"):
             f = float(np.dot(r, r)) + P["hval"](x)
@@ -177,7 +177,7 @@ class Run(object):
         self.emit("Call", i=i, xh=hashlib.sha1(x.tobytes()).hexdigest()[:12], xid=self.xid(x), pos=pos_classes(x, P["lo"], P["hi"]), f=f, cls=("raise" if raised else rclass(r)),
                   raised=raised, feas=feas, xfin=bool(np.all(np.isfinite(x))))
         if raised:
-            raise problems.InjectedError("injected at evaluation %d" % i)
+            raise problems.RAISE_KINDS[fk["kind"]]("injected at evaluation %d" % i)
         return r
 
     def on_log(self, i, j):
@@ -647,7 +647,13 @@ def record(inst, timeout=60.0, extra_return=None, rng_state=None):
         with warnings.catch_warnings():
             warnings.simplefilter("ignore")
             with np.errstate(all="ignore"):
-                soln = dfols.solve(run.objfun, x0, **kw)
+                if kw.get("print_progress"):
+                    import contextlib
+                    import io
+                    with contextlib.redirect_stdout(io.StringIO()):
+                        soln = dfols.solve(run.objfun, x0, **kw)
+                else:
+                    soln = dfols.solve(run.objfun, x0, **kw)
     except HangError:
         outcome = "hang"
     except WrapperError:
